@@ -26,7 +26,7 @@ fn record_large(b: &mut Batch, trace_id: usize, what: &str, modes: &[RealMode], 
     let ci = b.cfgs.len();
     let input_ids: Vec<usize> = texts.iter().map(|t| b.add_input(t, &chars, &atom_of_char)).collect();
     b.events.push(json!({"op": "reset", "trace": trace_id}));
-    let sm = crate::parse::to_scanner_modes(modes);
+    let sm = crate::parse::to_scanner_modes_mono(modes);
     let built = std::panic::catch_unwind(std::panic::AssertUnwindSafe(|| scnr::ScannerBuilder::new().add_scanner_modes(&sm).build_uncached()));
     let build_s = t0.elapsed().as_secs_f64();
     let syms: Vec<char> = vec![];
